@@ -528,6 +528,10 @@ class TrainRun:
         e = dict(self.plan["env"])
         e.pop("kind", None)
         e.pop("scripts", None)
+        if e.pop("rescale", None):
+            from .simenv import RescaledSimEnv
+
+            return RescaledSimEnv(SimEnv(**e))
         return SimEnv(**e)
 
     def sub_envs(self):
